@@ -5,6 +5,7 @@ Every case is one call pattern on the real `qib.operator.PauliString / WeightedP
 implementation did with NumPy Kronecker products built here (`oracle`; independent of the model).
 """
 from __future__ import annotations
+import contextlib, io
 import itertools, math
 import numpy as np
 from common import import_qib, run_correspondence, q as qstr, cq
@@ -264,6 +265,17 @@ def impl(case):
                     o.add_pauli_string(WPS(mk(st[1]), build_w(st[2])))
                 else:
                     o.remove_zero_weight_strings(tol=st[1])
+            if case.get("views"):
+                # read-only views taken before the read-out: printing / flag queries must leave the operator as it is
+                # (whether a view of a degenerate operator - e.g. printing an operator without strings - succeeds is not part of the property)
+                with contextlib.redirect_stdout(io.StringIO()):
+                    for view in (lambda: str(o), lambda: [str(w) for w in o.pstrings], lambda: [str(w.paulis) for w in o.pstrings],
+                                 lambda: o.is_hermitian(), lambda: [w.is_hermitian() for w in o.pstrings],
+                                 lambda: [w.is_unitary() for w in o.pstrings], lambda: o.num_qubits, lambda: print(o)):
+                        try:
+                            view()
+                        except Exception:
+                            pass
             strings = [[str(w.paulis), canon(w.paulis), cq(w.weight)] for w in o.pstrings]
             out = {"strings": strings, "nq": int(o.num_qubits), "herm": bool(o.is_hermitian()), "mat": None}
             if case.get("mat"):
@@ -801,6 +813,8 @@ def gen_history(rng, count, nmax_mat):
     # hand-written boundary histories first
     X, Y, mX = {"z": [0], "x": [1], "q": 0}, {"z": [1], "x": [1], "q": 0}, {"z": [0], "x": [1], "q": 2}
     yield {"op": "pop.history", "init": [], "steps": [], "mat": True}
+    yield {"op": "pop.history", "init": [[{"z": [1, 0], "x": [1, 1], "q": 1}, ["float", 1.5]], [{"z": [0, 1], "x": [0, 1], "q": 3}, ["complex", 0.5, -1.0]]],
+           "steps": [], "mat": True, "views": True}
     yield {"op": "pop.history", "init": [], "steps": [["prune", 0.0]], "mat": True}
     yield {"op": "pop.history", "init": [], "steps": [["add", X, ["float", 0.0]], ["prune", 0.0]], "mat": True}
     yield {"op": "pop.history", "init": [], "steps": [["add", X, ["float", 0.0]], ["add", Y, ["float", 0.0]], ["prune", 0.0]], "mat": True}
@@ -854,6 +868,8 @@ def gen_history(rng, count, nmax_mat):
                 if all(d != p for p, _ in init):
                     c["decoy"] = [d, ["float", 0.75]]
                     break
+        if rng.random() < 0.35:
+            c["views"] = True        # str()/print/flag queries before the read-out (they must not change the operator)
         yield c
 
 
